@@ -433,6 +433,52 @@ func run(c *core.Ctx) {
 			return
 		}
 		seen[id] = true
+		// "fresh": five bytes of entropy each. An id with four or five zero bytes has probability < 1.3e-9
+		// under a uniform source (about 1e-5 over a whole thorough run): seeing one means the id was not
+		// drawn from five fresh random bytes (short read, reused buffer, ...).
+		zeros := 0
+		for b := 0; b < 10; b += 2 {
+			if id[b:b+2] == "00" {
+				zeros++
+			}
+		}
+		if zeros >= 4 {
+			c.Native(fmt.Sprintf("transaction id %q (number %d of this process) has %d zero bytes out of 5: it does not come from five fresh random bytes", id, len(seen), zeros),
+				map[string]interface{}{"id": id, "ordinal_in_process": len(seen)})
+			return
+		}
 	}
-	c.NativeCheck(len(transIDs))
+	// long-lived process: ids keep coming from fresh entropy whatever their ordinal (buffered readers run dry
+	// at block boundaries): draw more through NewReqParam until at least 4500 have been seen
+	for n := len(transIDs); n < 4500; n++ {
+		p, err := csr.NewReqParam(func(k string) string {
+			switch k {
+			case "SSH_ORIGINAL_COMMAND":
+				return goodJSON
+			case "LOGNAME":
+				return "user"
+			case "SSH_CONNECTION":
+				return goodConn
+			}
+			return ""
+		}, func() []string { return goodArgv })
+		if err != nil || p == nil {
+			c.Native("NewReqParam fails on the reference input: "+fmt.Sprint(err), nil)
+			return
+		}
+		id := p.TransID
+		zeros := 0
+		for b := 0; b+2 <= len(id) && b < 10; b += 2 {
+			if id[b:b+2] == "00" {
+				zeros++
+			}
+		}
+		if len(id) != 10 || seen[id] || zeros >= 4 {
+			c.Native(fmt.Sprintf("transaction id %q (number %d of this process) is repeated, malformed or has %d zero bytes out of 5: not fresh", id, n+1, zeros),
+				map[string]interface{}{"id": id, "ordinal_in_process": n + 1})
+			return
+		}
+		seen[id] = true
+	}
+	c.NativeCheck(len(seen))
 }
